@@ -20,7 +20,7 @@ def lemma(degree, num_ctrlpts):
         props=['C03'],
         source='''
 def lemma(degree, num_ctrlpts):
-    kv = generate(degree, num_ctrlpts)
+    kv = generate(degree, num_ctrlpts, clamped=False)
     return check(degree, kv, num_ctrlpts)
 ''',
         args=OD([('degree', 'int'), ('num_ctrlpts', 'int')]),
